@@ -7,9 +7,10 @@
   translator regenerates from /repo on every run.
 -/
 import DulwichModel.Lemmas.Pack
+import DulwichModel.Lemmas.PackIndex
 
 namespace Dulwich.Props.C02
-open Dulwich Dulwich.Pack Dulwich.Delta
+open Dulwich Dulwich.Pack Dulwich.Delta Dulwich.PackIndex
 
 /-! ## 0. the shape the model assumes of the code (regenerated constants that are not numeric parameters) -/
 
@@ -27,35 +28,7 @@ theorem shape_constants :
 exactly `rest`: every type number that fits the 3-bit field, every size (no upper bound). -/
 theorem objheader_roundtrip (ty size : Nat) (rest : Bytes) (hty : ty < 8) :
     decodeObjHeader (encodeObjHeader ty size ++ rest) = some (ty, size, rest) := by
-  have hc : ty * 2 ^ Gen.Pack.hdrTypeShift + size % (Gen.Pack.hdrLowMask + 1) < 128 := by
-    simp only [Gen.Pack.hdrTypeShift, Gen.Pack.hdrLowMask]; omega
-  have h1 : takeMsb (encodeObjHeader ty size ++ rest) = some (encodeObjHeader ty size, rest) :=
-    takeMsb_encVarTail _ _ _ hc
-  have h2 : decodeObjHeaderRaw (encodeObjHeader ty size) = some (ty, size) := by
-    unfold encodeObjHeader
-    rw [encVarTail]
-    split
-    · rename_i h0
-      have h1 : (UInt8.ofNat (ty * 2 ^ Gen.Pack.hdrTypeShift + size % (Gen.Pack.hdrLowMask + 1))).toNat
-          = ty * 16 + size % 16 := u8_toNat_ofNat (by omega)
-      simp only [decodeObjHeaderRaw, h1, sizeTail, Gen.Pack.dhTypeShift, Gen.Pack.dhTypeMask, Gen.Pack.dhLowMask]
-      simp only [Gen.Pack.hdrLowShift] at h0
-      have e1 : (ty * 16 + size % 16) / 2 ^ 4 % (7 + 1) = ty := by omega
-      have e2 : (ty * 16 + size % 16) % (15 + 1) + 0 = size := by omega
-      rw [e1, e2]
-    · rename_i h0
-      have h1 : (UInt8.ofNat (ty * 2 ^ Gen.Pack.hdrTypeShift + size % (Gen.Pack.hdrLowMask + 1)
-          + Gen.Pack.hdrContBit)).toNat = ty * 16 + size % 16 + 128 :=
-        u8_toNat_ofNat (by simp only [Gen.Pack.hdrContBit]; omega)
-      simp only [decodeObjHeaderRaw, h1]
-      rw [sizeTail_encVarTail _ _ _ (by simp only [Gen.Pack.hdrGroupMask]; omega)]
-      simp only [Gen.Pack.dhTypeShift, Gen.Pack.dhTypeMask, Gen.Pack.dhLowMask, Gen.Pack.dhLowShift,
-        Gen.Pack.hdrGroupMask, Gen.Pack.hdrGroupShift, Gen.Pack.hdrLowShift]
-      have e1 : (ty * 16 + size % 16 + 128) / 2 ^ 4 % (7 + 1) = ty := by omega
-      have e2 : (ty * 16 + size % 16 + 128) % (15 + 1)
-          + (size / 2 ^ 4 % (127 + 1) + 128 * (size / 2 ^ 4 / 2 ^ 7)) * 2 ^ 4 = size := by omega
-      rw [e1, e2]
-  simp only [decodeObjHeader, h1, h2]
+  simp only [decodeObjHeader, takeMsb_encodeObjHeader ty size rest hty, decodeObjHeaderRaw_encodeObjHeader ty size hty]
 
 /-- Non-vacuity / boundary instances: sizes 15/16 (4-bit group), 2047/2048 (first 7-bit group), 65536. -/
 example : encodeObjHeader 3 15 = [0x3f] ∧ encodeObjHeader 3 16 = [0xb0, 0x01]
@@ -68,36 +41,7 @@ example : encodeObjHeader 3 15 = [0x3f] ∧ encodeObjHeader 3 16 = [0xb0, 0x01]
 
 theorem ofs_roundtrip (n : Nat) (rest : Bytes) (hn : 0 < n) :
     decodeOfs (encodeOfs n ++ rest) = some (.ok n, rest) := by
-  unfold decodeOfs encodeOfs
-  have hb : (UInt8.ofNat (n % (Gen.Pack.ofsLowMask + 1))).toNat = n % 128 :=
-    u8_toNat_ofNat (by simp only [Gen.Pack.ofsLowMask]; omega)
-  simp only [takeMsb_encodeOfsAux _ _ _ (show takeMsb ([UInt8.ofNat (n % (Gen.Pack.ofsLowMask + 1))] ++ rest)
-    = some ([UInt8.ofNat (n % (Gen.Pack.ofsLowMask + 1))], rest) by simp [takeMsb, hb, Gen.Pack.msbBit]; omega)]
-  have hq : n / 2 ^ Gen.Pack.ofsLowShift = n / 128 := rfl
-  rw [hq]
-  by_cases h0 : n / 128 = 0
-  · rw [h0, encodeOfsAux]
-    simp only [if_true, decodeOfsRaw, lastHasMsb, hb, Gen.Pack.doContBit, decodeOfsAux, Gen.Pack.doLowMask,
-      Gen.Pack.doZero]
-    have e : n % 128 % (127 + 1) = n := by omega
-    have e2 : ¬ n % 128 ≥ 128 := by omega
-    simp [e, e2]
-    omega
-  · obtain ⟨b', r', he, hd⟩ := decodeOfsAux_encodeOfsAux (n / 128) (UInt8.ofNat (n % (Gen.Pack.ofsLowMask + 1))) []
-      (by omega)
-    have hl := lastHasMsb_encodeOfsAux (n / 128) [UInt8.ofNat (n % (Gen.Pack.ofsLowMask + 1))] (by simp)
-    rw [he] at hl ⊢
-    simp only [decodeOfsRaw, hl, lastHasMsb, hb, Gen.Pack.doContBit, Gen.Pack.doLowMask]
-    have e2 : ¬ n % 128 ≥ 128 := by omega
-    simp only [e2, decide_false, Bool.false_eq_true, if_false]
-    have hd' : decodeOfsAux (b'.toNat % (127 + 1)) r' = n := by
-      have : b'.toNat % (127 + 1) = b'.toNat % 128 := rfl
-      rw [this, hd]
-      simp only [decodeOfsAux, hb, Gen.Pack.doBias, Gen.Pack.doGroupShift, Gen.Pack.doGroupMask]
-      omega
-    simp only [hd', Gen.Pack.doZero]
-    have : ¬ n = 0 := by omega
-    simp [this]
+  simp only [decodeOfs, takeMsb_encodeOfs n rest, decodeOfsRaw_encodeOfs n hn]
 
 /-- Why `n > 0`: distance 0 is encodable but the decoder refuses it (`ApplyDeltaError`). -/
 theorem ofs_zero_rejected (rest : Bytes) : decodeOfs (encodeOfs 0 ++ rest) = some (.error .delta, rest) := by
@@ -147,5 +91,226 @@ theorem trailer_tracking (hs : Nat) (hhs : 0 < hs) (chunks : List Bytes) :
 
 /-- Non-vacuity: a 5-byte stream fed as `[1,2] [] [3] [4,5]` with a 3-byte trailer. -/
 example : feedAll 3 [[1, 2], [], [3], [4, 5]] = ⟨[1, 2], [3, 4, 5]⟩ := by decide
+
+/-! ## 5. pack framing: what `write_pack_data` writes is what the readers read -/
+
+/-- **Sequential round trip.**  With zlib as a parameter (`inflate (deflate x ++ rest) = some (x, rest)`) and a
+trailer hash of `hs > 0` bytes, the pack `write_pack_data` produces for *any* list of well-formed records —
+full objects, deltas whose base was written earlier (emitted as OFS_DELTA with the +1-biased distance) and
+deltas whose base was not (emitted as REF_DELTA) — is accepted by `PackData` and `iter_unpacked` yields, in
+order, exactly the entries the writer meant: same offsets, same pack types, same base references, same
+payload bytes. -/
+theorem pack_sequential_roundtrip (deflate : Bytes → Bytes) (inflate : Bytes → Option (Bytes × Bytes))
+    (H : Bytes → Bytes) (hs : Nat) (recs : List Rec)
+    (hz : ZlibOk deflate inflate) (hhs : 0 < hs) (hH : ∀ x, (H x).length = hs)
+    (hwf : ∀ r ∈ recs, wfRec hs r = true) (hn : recs.length < 2 ^ 32) :
+    readPackSeq inflate hs (writePack deflate H recs).1 = .ok (layoutRecs deflate 12 [] recs) := by
+  unfold writePack writePackBody
+  simp only [packHeader_length]
+  generalize hT : H (packHeader recs.length ++ (writeRecs deflate 12 [] recs).1) = T
+  have hTl : T.length = hs := by rw [← hT]; exact hH _
+  have hTne : T ≠ [] := by intro h; rw [h] at hTl; simp at hTl; omega
+  have hpl := packHeader_length recs.length
+  unfold readPackSeq
+  have hlen : ¬ ((packHeader recs.length ++ (writeRecs deflate 12 [] recs).1 ++ T).length
+      < Gen.Pack.packHeaderSize + hs) := by
+    simp only [List.length_append, hpl, hTl, Gen.Pack.packHeaderSize]; omega
+  rw [if_neg hlen]
+  have htake : (packHeader recs.length ++ (writeRecs deflate 12 [] recs).1 ++ T).take Gen.Pack.packHeaderSize
+      = packHeader recs.length := by
+    rw [List.append_assoc]
+    exact List.take_left' hpl
+  have hhdr : readPackHeader (packHeader recs.length ++ (writeRecs deflate 12 [] recs).1 ++ T) = .ok recs.length := by
+    unfold readPackHeader
+    simp only [htake]
+    have h1 : (packHeader recs.length).isEmpty = false := by
+      simp [packHeader, Gen.Pack.packMagic]
+    have h2 : (packHeader recs.length).take Gen.Pack.packMagic.length = Gen.Pack.packMagic := by
+      unfold packHeader; rw [List.append_assoc]; exact List.take_left' rfl
+    have h3 : beAt 4 (packHeader recs.length) Gen.Pack.packVersionAt = some Gen.Pack.packVersion := by
+      unfold packHeader
+      rw [List.append_assoc]
+      exact beAt_beBytes 4 _ _ _ _ (by simp [Gen.Pack.packMagic, Gen.Pack.packVersionAt]) (by decide)
+    have h4 : beAt 4 (packHeader recs.length) Gen.Pack.packCountAt = some recs.length := by
+      unfold packHeader
+      have := beAt_beBytes 4 recs.length (Gen.Pack.packMagic ++ beBytes 4 Gen.Pack.packVersion) [] Gen.Pack.packCountAt
+        (by simp [Gen.Pack.packMagic, Gen.Pack.packCountAt, beBytes_length']) (by omega)
+      rw [List.append_nil] at this
+      exact this
+    simp only [h1, Bool.false_eq_true, if_false, h2, ne_eq, not_true_eq_false, h3, h4, Gen.Pack.packVersion,
+      Gen.Pack.packVersionLo, Gen.Pack.packVersionHi]
+    simp
+  rw [hhdr]
+  simp only
+  have hdrop : (packHeader recs.length ++ (writeRecs deflate 12 [] recs).1 ++ T).drop Gen.Pack.packHeaderSize
+      = (writeRecs deflate 12 [] recs).1 ++ T := by
+    rw [List.append_assoc]
+    exact List.drop_left' hpl
+  rw [hdrop, parseEntries_writeRecs deflate inflate hz hs T hTne recs 12 _ [] hwf (by simp)
+    (by simp only [List.length_append, hpl]; omega)]
+
+/-- **Offsets and CRC ranges are consistent.**  Every `(name, offset, raw)` the writer records (the index is
+written from these; the CRC-32 is taken over `raw`) satisfies `pack[offset : offset + len raw] = raw`. -/
+theorem crc_ranges_consistent (deflate : Bytes → Bytes) (H : Bytes → Bytes) (recs : List Rec) :
+    ∀ e ∈ (writePack deflate H recs).2,
+      slice (writePack deflate H recs).1 e.offset e.raw.length = e.raw := by
+  intro e he
+  unfold writePack writePackBody at he ⊢
+  simp only [packHeader_length] at he ⊢
+  have := writeRecs_ranges deflate recs 12 [] (packHeader recs.length)
+    (H (packHeader recs.length ++ (writeRecs deflate 12 [] recs).1)) (packHeader_length _) e he
+  rcases this with h | h
+  · simp at h
+  · rw [List.append_assoc]; exact h
+
+/-! ## 4. index v2: write → load → lookup, sound and complete *except* for the phantom name -/
+
+/-- The full statement one would like: looking a name up in the written index finds exactly the
+entries that were written.  **False for the code as it is** (`index_phantom_counterexample`). -/
+def IndexLookupStatement : Prop :=
+  ∀ (H : Bytes → Bytes) (es : List IdxEntry) (cs sha : Bytes) (hs : Nat),
+    (hs = 20 ∨ hs = 32) → cs.length = hs → (∀ e ∈ es, e.name.length = hs) → sha.length = hs →
+    Sorted es → es.length < 2 ^ 31 → (∀ e ∈ es, e.crc < 2 ^ 32 ∧ e.offset < 2 ^ 64) →
+    ∃ file x, writeIndexV2 H es cs = .ok file ∧ loadIndex hs file = .ok x ∧
+      x.lookup sha = match es.find? (fun e => decide (e.name = sha)) with
+                     | some e => .ok e.offset
+                     | none => .error .key
+
+/-- **Index v2 round trip, as coded.**  For every strictly sorted (hence duplicate-free) entry list with
+names of the hash length, 32-bit CRCs and offsets below 2^64 (so also the ones ≥ 2^31 that go through the
+64-bit table), the file `write_pack_index_v2` writes loads as a v2 index with `len = #entries` and the
+fan-out law, and `_object_offset(sha)` returns the offset of the entry named `sha`, or `KeyError` when
+there is none — **provided** `sha` is not the byte string that follows the name table
+(`x.nameAt es.length`, see `index_phantom_is_after_names`).  The proof needs that hypothesis because the
+bisection is handed `fan_out[b]`, one past the group, as an *inclusive* bound. -/
+theorem index_v2_lookup_partial (H : Bytes → Bytes) (es : List IdxEntry) (cs sha : Bytes) (hs : Nat)
+    (hhs : hs = 20 ∨ hs = 32) (hcs : cs.length = hs) (hnames : ∀ e ∈ es, e.name.length = hs)
+    (hsha : sha.length = hs) (hsorted : Sorted es) (hn : es.length < 2 ^ 31)
+    (hfield : ∀ e ∈ es, e.crc < 2 ^ 32 ∧ e.offset < 2 ^ 64) :
+    ∃ file x, writeIndexV2 H es cs = .ok file ∧ loadIndex hs file = .ok x ∧ x.n = es.length ∧
+      (∀ b, b < 256 → x.fan[b]? = some (countLe es b)) ∧
+      (x.nameAt es.length ≠ sha →
+        x.lookup sha = match es.find? (fun e => decide (e.name = sha)) with
+                       | some e => .ok e.offset
+                       | none => .error .key) := by
+  refine ⟨v2File H es cs, v2Idx H es cs hs, ?_, load_v2 H es cs hs hn, rfl, ?_, ?_⟩
+  · exact write_v2_ok H es cs hs hhs hcs hnames hfield
+  · intro b hb
+    show ((List.range' 0 256).map (cumul es))[b]? = some (countLe es b)
+    rw [fan_get es b hb, cumul_eq_countLe]
+  · intro hph
+    have hfb := firstByte_lt sha
+    have hmono := hsorted.firstBytes
+    -- start and end of the group
+    have hstart : (if firstByte sha = 0 then some 0 else ((List.range' 0 256).map (cumul es))[firstByte sha - 1]?)
+        = some (countLt es (firstByte sha)) := by
+      by_cases h0 : firstByte sha = 0
+      · rw [if_pos h0, h0, countLt_zero]
+      · rw [if_neg h0, fan_get es _ (by omega), cumul_eq_countLe, countLe_eq_countLt]
+        congr 2; omega
+    have hend : ((List.range' 0 256).map (cumul es))[firstByte sha]? = some (countLe es (firstByte sha)) := by
+      rw [fan_get es _ hfb, cumul_eq_countLe]
+    have hle : countLt es (firstByte sha) ≤ countLe es (firstByte sha) := countLt_le_countLe es _
+    have hen : countLe es (firstByte sha) ≤ es.length := countLe_le es _
+    -- what the bisection does
+    have hbis := bisect_spec (v2Idx H es cs hs).nameAt sha (countLt es (firstByte sha)) (countLe es (firstByte sha))
+      (by
+        intro i j hi hij hj
+        rw [nameAt_v2 H es cs hs hnames i (by omega), nameAt_v2 H es cs hs hnames j (by omega)]
+        exact (List.pairwise_iff_getElem.mp hsorted) i j (by omega) (by omega) hij)
+      (by
+        by_cases hlast : countLe es (firstByte sha) = es.length
+        · rw [hlast]; exact hph
+        · have hlt : countLe es (firstByte sha) < es.length := by omega
+          rw [nameAt_v2 H es cs hs hnames _ hlt]
+          intro heq
+          have h1 := (countLt_iff es (firstByte sha + 1) _ hlt hmono).not.mp
+            (by rw [← countLe_eq_countLt]; omega)
+          rw [heq] at h1
+          omega)
+      (countLe es (firstByte sha) + 1 - countLt es (firstByte sha)) (countLt es (firstByte sha))
+      (countLe es (firstByte sha) + 1) (Nat.le_refl _) (Nat.le_refl _) (Nat.le_refl _)
+      (by intro k h1 h2; omega) (by intro k h1 h2; omega)
+    -- unfold the lookup
+    unfold Idx.lookup
+    have hx1 : (v2Idx H es cs hs).hs = hs := rfl
+    have hx2 : (v2Idx H es cs hs).fan = (List.range' 0 256).map (cumul es) := rfl
+    rw [hx1, hx2]
+    simp only [hsha, ne_eq, not_true_eq_false, if_false, hstart, hend, Gen.Pack.bisectInclusive,
+      Gen.Pack.lookupEndSlack, Nat.sub_zero]
+    rw [if_neg (by omega)]
+    generalize hr : bisect (v2Idx H es cs hs).nameAt sha
+      (countLe es (firstByte sha) + 1 - countLt es (firstByte sha)) (countLt es (firstByte sha))
+      (countLe es (firstByte sha) + 1) = r at hbis
+    cases r with
+    | some i =>
+      obtain ⟨hi1, hi2, hi3⟩ := hbis.1 i rfl
+      have hin : i < es.length := by omega
+      rw [nameAt_v2 H es cs hs hnames i hin] at hi3
+      simp only
+      rw [offsetAt_v2 _ H es cs hs (v2Idx_isV2 H es cs hs) hnames hn (fun e he => (hfield e he).2) i hin]
+      rw [← hi3, find_sorted es i hin hsorted]
+    | none =>
+      have hnone := hbis.2 rfl
+      have hfind : es.find? (fun e => decide (e.name = sha)) = none := by
+        rw [List.find?_eq_none]
+        intro e he
+        obtain ⟨j, hj, rfl⟩ := List.getElem_of_mem he
+        simp only [decide_eq_true_eq]
+        intro heq
+        have hfj : firstByte es[j].name = firstByte sha := by rw [heq]
+        have h1 := (countLt_iff es (firstByte sha) j hj hmono).not.mpr (by omega)
+        have h2 := (countLt_iff es (firstByte sha + 1) j hj hmono).mpr (by omega)
+        rw [← countLe_eq_countLt] at h2
+        have := hnone j (by omega) h2
+        rw [nameAt_v2 H es cs hs hnames j hj] at this
+        exact this heq
+      simp only [hfind]
+
+/-- What the excluded probe is: the `hs` bytes that follow the name table — the beginning of the CRC
+table, or for an empty index the pack checksum itself. -/
+theorem index_phantom_is_after_names (H : Bytes → Bytes) (es : List IdxEntry) (cs : Bytes) (hs : Nat)
+    (hnames : ∀ e ∈ es, e.name.length = hs) :
+    (v2Idx H es cs hs).nameAt es.length
+      = (crcTable es ++ (ofsWords 0 es ++ (largeWords es ++ (cs ++ H (v2Body es cs))))).take hs :=
+  nameAt_v2_phantom H es cs hs hnames
+
+/-- Non-vacuity of `index_v2_lookup_partial`: two entries, one with an offset ≥ 2^32 (64-bit table), probe
+present; all hypotheses hold, including phantom-freeness. -/
+example :
+    let es : List IdxEntry := [⟨List.replicate 20 1, 12, 7⟩, ⟨List.replicate 20 2, 2 ^ 32 + 5, 9⟩]
+    let cs : Bytes := List.replicate 20 0xab
+    let H : Bytes → Bytes := fun _ => List.replicate 20 0
+    Sorted es ∧ (v2Idx H es cs 20).nameAt es.length ≠ List.replicate 20 2 ∧
+      (v2Idx H es cs 20).lookup (List.replicate 20 2) = .ok (2 ^ 32 + 5) := by
+  refine ⟨by decide, by decide +kernel, by decide +kernel⟩
+
+/-- **Negation witness (DESIGN §7-F3, confirmed on the real code).**  The index of the *empty* pack
+(pack checksum `029d0882…`): the 20 bytes after the empty name table are the pack checksum, the
+inclusive bisection over `[0, 0]` probes them, and looking the checksum up *as an object name* succeeds
+with offset `0x029d0882` although the index has no entries. -/
+theorem index_phantom_counterexample :
+    let cs : Bytes := [0x02, 0x9d, 0x08, 0x82, 0x3b, 0xd8, 0xa8, 0xea, 0xb5, 0x10, 0xad, 0x6a, 0xc7, 0x5c, 0x82,
+      0x3c, 0xfd, 0x3e, 0xd3, 0x1e]
+    let H : Bytes → Bytes := fun _ => List.replicate 20 0
+    (v2Idx H [] cs 20).lookup cs = .ok 0x029d0882 ∧
+      ([] : List IdxEntry).find? (fun e => decide (e.name = cs)) = none := by
+  refine ⟨by decide +kernel, rfl⟩
+
+/-- Hence the full statement is false for the code as it is. -/
+theorem index_lookup_statement_false : ¬ IndexLookupStatement := by
+  intro h
+  obtain ⟨file, x, hw, hl, hlook⟩ := h (fun _ => List.replicate 20 0) []
+    [0x02, 0x9d, 0x08, 0x82, 0x3b, 0xd8, 0xa8, 0xea, 0xb5, 0x10, 0xad, 0x6a, 0xc7, 0x5c, 0x82, 0x3c, 0xfd, 0x3e, 0xd3, 0x1e]
+    [0x02, 0x9d, 0x08, 0x82, 0x3b, 0xd8, 0xa8, 0xea, 0xb5, 0x10, 0xad, 0x6a, 0xc7, 0x5c, 0x82, 0x3c, 0xfd, 0x3e, 0xd3, 0x1e]
+    20 (Or.inl rfl) rfl (by simp) rfl (by simp [Sorted]) (by simp) (by simp)
+  rw [write_v2_ok _ _ _ 20 (Or.inl rfl) rfl (by simp) (by simp)] at hw
+  cases hw
+  rw [load_v2 _ _ _ 20 (by simp)] at hl
+  cases hl
+  have h1 := index_phantom_counterexample.1
+  simp only [List.find?_nil] at hlook
+  have h2 := hlook.symm.trans h1
+  cases h2
 
 end Dulwich.Props.C02
